@@ -32,7 +32,7 @@ def body():
     chk.assume(
         "harness/fake_exafmm.py implements the backend contract written in FmmGlue.tla (potential and gradient by direct summation, coincident "
         "points skipped): the claims are about the glue, as the property says",
-        "barycentric (BC/RBC) spaces are not exercised in FMM mode",
+        "barycentric and dual spaces: dense assembly rejects spaces with dof transformations, so their dense counterpart is D' A D with A the dense operator on the element-wise spaces of the barycentric grid",
     )
     quick = chk.tier == "quick"
     for cfg, expect_ok, note in (("FmmGlue.cfg", True, "requirement"), ("FmmGlue_asis_index.cfg", False, "positions from element ids: must violate IndexMapsSound"),
@@ -122,6 +122,67 @@ def body():
                             chk.violation("fmm_vs_dense:%s:%s" % (name, cname.replace(" ", "_")), "%s: fmm and dense potentials differ by %.3g" % (label, e_), {"case": label})
                     except Exception as exc:
                         chk.violation("fmm_vs_dense:%s:exception" % name, "%s: %s: %s" % (label, type(exc).__name__, str(exc)[:160]), {"case": label})
+        # ---- barycentric and dual spaces: the dense assembler rejects spaces with dof transformations, so the dense counterpart is
+        # D_test' A_plain D_trial with A_plain the dense operator on the element-wise spaces of the barycentric grid (as in C10)
+        gC = api.Grid(V, E)
+        bg = gC.barycentric_refinement
+        plain = {}
+
+        def plain_space(bs):
+            key = (bs.shapeset.identifier, bs.identifier)
+            if key not in plain:
+                if bs.shapeset.identifier == "p0_discontinuous":
+                    plain[key] = api.function_space(bg, "DP", 0)
+                elif bs.shapeset.identifier == "p1_discontinuous":
+                    plain[key] = api.function_space(bg, "DP", 1)
+                else:
+                    base = api.function_space(bg, "SNC" if bs.identifier == "snc0" else "RWG", 0, include_boundary_dofs=True)
+                    plain[key] = base.localised_space
+                    plain[key]._identifier = base.identifier   # the Maxwell factories test the identifier string; harness-only tweak
+            return plain[key]
+
+        def dfull(space):
+            return space.map_to_full_grid.dot(space.dof_transformation.tocsr()).toarray()
+
+        bsp = {"BC": api.function_space(gC, "BC", 0), "RBC": api.function_space(gC, "RBC", 0), "RWG": api.function_space(gC, "RWG", 0), "SNC": api.function_space(gC, "SNC", 0),
+               "DUAL0": api.function_space(gC, "DUAL", 0), "DUAL1": api.function_space(gC, "DUAL", 1), "P1": api.function_space(gC, "P", 1), "DP0": api.function_space(gC, "DP", 0)}
+        bcases = [("maxwell.electric_field", lambda d, t, a: b.maxwell.electric_field(d, d, t, k, assembler=a), "BC", "RBC"),
+                  ("maxwell.electric_field", lambda d, t, a: b.maxwell.electric_field(d, d, t, k, assembler=a), "RWG", "RBC"),
+                  ("maxwell.magnetic_field", lambda d, t, a: b.maxwell.magnetic_field(d, d, t, k, assembler=a), "BC", "SNC"),
+                  ("laplace.single_layer", lambda d, t, a: b.laplace.single_layer(d, d, t, assembler=a), "DUAL0", "DUAL0"),
+                  ("laplace.single_layer", lambda d, t, a: b.laplace.single_layer(d, d, t, assembler=a), "P1", "DUAL0"),
+                  ("helmholtz.double_layer", lambda d, t, a: b.helmholtz.double_layer(d, d, t, k, assembler=a), "DUAL1", "DP0"),
+                  ("laplace.hypersingular", lambda d, t, a: b.laplace.hypersingular(d, d, t, assembler=a), "DUAL1", "DUAL1"),
+                  ("modified_helmholtz.adjoint_double_layer", lambda d, t, a: b.modified_helmholtz.adjoint_double_layer(d, d, t, w, assembler=a), "DP0", "DUAL1")]
+        api.clear_fmm_cache()
+        for name, fac, kd, kt in bcases[::2] + bcases[1:2] if quick else bcases:
+            label = "%s (%s -> %s), barycentric" % (name, kd, kt)
+            chk.count(label, True)
+            chk.cov["obligations_replayed"] += 1
+            try:
+                dom, tst = bsp[kd], bsp[kt]
+                x = rng.rand(dom.global_dof_count) + 1j * rng.rand(dom.global_dof_count)
+                a = fac(dom, tst, "fmm").weak_form() @ x
+                bd, bt = (dom if dom.is_barycentric else dom.barycentric_representation()), (tst if tst.is_barycentric else tst.barycentric_representation())
+                A = np.asarray(fac(plain_space(bd), plain_space(bt), "dense").weak_form().to_dense())
+                dd = dfull(bt).T.dot(A).dot(dfull(bd)).dot(x)
+                e_ = np.abs(a - dd).max() / max(1e-12, np.abs(dd).max())
+                if e_ > 1e-10:
+                    chk.violation("fmm_vs_dense:%s:barycentric" % name, "%s: fmm mat-vec differs from D' A_dense D on the barycentric grid by %.3g" % (label, e_), {"case": label})
+            except Exception as exc:
+                chk.violation("fmm_vs_dense:%s:barycentric:exception" % name, "%s: %s: %s" % (label, type(exc).__name__, str(exc)[:160]), {"case": label})
+        for name, fac, ks in (("potential.maxwell.electric_field", lambda s, a: p.maxwell.electric_field(s, pts, k, assembler=a), "BC"), ("potential.laplace.single_layer", lambda s, a: p.laplace.single_layer(s, pts, assembler=a), "DUAL0"),
+                              ("potential.helmholtz.double_layer", lambda s, a: p.helmholtz.double_layer(s, pts, k, assembler=a), "DUAL1")):
+            label = "%s (%s), barycentric" % (name, ks)
+            chk.count(label, True)
+            try:
+                f = api.GridFunction(bsp[ks], coefficients=rng.rand(bsp[ks].global_dof_count) + 1j * rng.rand(bsp[ks].global_dof_count))
+                a, dd = fac(bsp[ks], "fmm").evaluate(f), fac(bsp[ks], "dense").evaluate(f)
+                e_ = np.abs(a - dd).max() / max(1e-12, np.abs(dd).max())
+                if e_ > 1e-10:
+                    chk.violation("fmm_vs_dense:%s:barycentric" % name, "%s: fmm and dense potentials differ by %.3g" % (label, e_), {"case": label})
+            except Exception as exc:
+                chk.violation("fmm_vs_dense:%s:barycentric:exception" % name, "%s: %s: %s" % (label, type(exc).__name__, str(exc)[:160]), {"case": label})
         # ---- the library's own replacement of the backend (fmm.dense_evaluation): same comparison, far field by helpers.dense_interaction_evaluator
         par = api.GLOBAL_PARAMETERS
         par.fmm.dense_evaluation = True
